@@ -15,8 +15,8 @@
 From Coq Require Import ZArith QArith List Bool Reals Lia.
 From CV Require Import Base.Num Base.RNum C03.ResumeModel C03.ResumeProofs C06.RestraintModel C03.ObjectsModel
   C03.RestraintResume C03.RestraintMachine C03.ObjectsProofs C03.SystemProofs C03.Witness
-  C03.AbfObject C03.AbfResume C03.AbfSystem C03.MetaObject C03.MetaResume.
-From CV Require C05.MetaModel.
+  C03.AbfObject C03.AbfResume C03.AbfSystem C03.MetaObject C03.MetaResume C03.FormatModel C03.FormatProofs.
+From CV Require C05.MetaModel C04.ABFModel.
 Import ListNotations.
 Local Open Scope Z_scope.
 
@@ -162,6 +162,33 @@ Theorem C03_metadynamics_resumes :
   resumes_like_uninterrupted (meta_machine Rops) meta_ok2 eq eq meta_saved_eq.
 Proof. exact meta_resumes_uninterrupted. Qed.
 Print Assumptions C03_metadynamics_resumes.
+
+(* Both state formats carry the same fields.  A state is a list of fields (keyword, values); the text format
+   writes `keyword values newline`, the binary format `keyword count values`; decoding what either encoder wrote
+   returns the field list, for every field list; the restraint's six optional keywords are recovered from it; hence a
+   restraint read from a text state and from a binary state is the same object, namely the one the resume theorems
+   are about (m_load (m_save s)). *)
+Theorem C03_formats_equivalent :
+  forall (T : Type),
+    (forall (f : format) (fs : list (@field T)), decode f (encode f fs) = fs) /\
+    (forall (O : NumOps T) (f : format) c s, r_read O f c (r_write O f c s) = m_load (restraint_machine O) c (m_save (restraint_machine O) c s)) /\
+    (forall (O : NumOps T) c s, r_read O Text c (r_write O Text c s) = r_read O Binary c (r_write O Binary c s)).
+Proof.
+  intros T. split; [exact (@decode_encode T)|]. split.
+  - intros O f c s. exact (r_read_write O f c s).
+  - intros O c s. exact (r_formats_agree O c s).
+Qed.
+Print Assumptions C03_formats_equivalent.
+
+(* With same-step total forces the total force of the re-executed step is reported again by the resumed run
+   (with lagged total forces a restarted engine does not have it: it is excluded from abf_out_eq0). *)
+Theorem C03_abf_total_force_at_restart_step :
+  forall (T : Type) (O : NumOps T) c s i, abf_ok c -> abf_inv O c s -> ABFModel.c_same_step c = true ->
+    let so := ABFModel.abf_step O c s (no_boundary i) in
+    let so' := ABFModel.abf_step O c (abf_load O c (ABFModel.s_cnt (fst so), ABFModel.s_sum (fst so))) (no_boundary i) in
+    ABFModel.o_tf (snd so) = ABFModel.o_tf (snd so').
+Proof. intros T O c s i. exact (reexec_total_force_same_step O c s i). Qed.
+Print Assumptions C03_abf_total_force_at_restart_step.
 
 (* ---- non-vacuity ---- *)
 Example C03_ok_satisfiable :
